@@ -252,11 +252,100 @@ fn gen_acyclic_case_w(base: &str, rng: &mut Rng, intern_heavy: bool, accum: bool
     }
 }
 
+/// Directed nested-conditional cycle (fixpoint functions): `b` consults `a` only while `c` is at
+/// bottom, so `b` leaves `a`'s cycle in a later iteration; `a` consults `s` only once `b` has left
+/// bottom; `s` and `c` read `b`. Threads enter at `a`, `s`, `c`: one thread can be blocked on the
+/// inner function while it drops out of the outer cycle and ownership moves.
+fn gen_nested_conditional_case(rng: &mut Rng) -> ConcCase {
+    let b = |e: Expr| Box::new(e);
+    let mask = |rng: &mut Rng, c: usize| Expr::Bin(Op::And, b(Expr::In(c, rng.below(2))), b(Expr::Const(7)));
+    let kind = |rng: &mut Rng| if rng.chance(1, 3) { Kind::FixJ } else { Kind::Fix };
+    let node = |kind: Kind, body: Expr| Node {
+        kind,
+        body,
+        mk: vec![],
+        fb: 0,
+        lru_maker: false,
+        lru_fix: false,
+    };
+    // node numbering is shuffled so that ingredient / key order does not correlate with the roles
+    let mut ids = [0usize, 1, 2, 3];
+    for i in (1..4).rev() {
+        ids.swap(i, rng.below(i + 1));
+    }
+    let (a, bb, c, s_) = (ids[0], ids[1], ids[2], ids[3]);
+    let mut nodes: Vec<Option<Node>> = vec![None, None, None, None];
+    let a_body = if rng.chance(1, 2) {
+        Expr::PeekNZ(bb, s_, b(mask(rng, 0)))
+    } else {
+        // `s` is consulted only once `c` has left bottom, i.e. one iteration after `b` dropped out
+        Expr::Bin(Op::Or, b(Expr::Call(bb)), b(Expr::PeekNZ(c, s_, b(mask(rng, 0)))))
+    };
+    nodes[a] = Some(node(kind(rng), a_body));
+    nodes[bb] = Some(node(kind(rng), Expr::PeekZ(c, a, b(mask(rng, 1)))));
+    let c_body = if rng.chance(1, 2) {
+        Expr::Call(bb)
+    } else {
+        Expr::Bin(Op::Or, b(Expr::Call(bb)), b(mask(rng, 0)))
+    };
+    nodes[c] = Some(node(kind(rng), c_body));
+    let s_body = if rng.chance(1, 2) {
+        Expr::Bin(Op::Or, b(Expr::Call(bb)), b(mask(rng, 1)))
+    } else {
+        Expr::Bin(Op::Or, b(Expr::Call(bb)), b(Expr::Call(c)))
+    };
+    nodes[s_] = Some(node(kind(rng), s_body));
+    let mut nodes: Vec<Node> = nodes.into_iter().map(|n| n.unwrap()).collect();
+    if rng.chance(1, 3) {
+        // an extra entry point above the outer head
+        nodes.push(node(Kind::Fix, Expr::Bin(Op::Or, b(Expr::Call(a)), b(Expr::Call(s_)))));
+    }
+    let prog = Prog {
+        nodes,
+        ncells: 2,
+        nunt: 0,
+        on_ent: Expr::Const(0),
+        on_sym: Expr::Const(0),
+        spec: Expr::Const(0),
+    };
+    let mut pre = Vec::new();
+    for cell in 0..2 {
+        for f in 0..2 {
+            pre.push(Step::Set { cell, field: f, val: rng.below(8) as u16, dur: None });
+        }
+    }
+    let nt = rng.range(2, 3);
+    let entry = [a, s_, c, bb];
+    let mut threads = Vec::new();
+    for t in 0..nt {
+        let mut ops = vec![TOp::Req(Req::Node(entry[t]))];
+        if rng.chance(1, 2) {
+            ops.push(TOp::Req(Req::Node(rng.below(prog.nodes.len()))));
+        }
+        threads.push(ops);
+    }
+    ConcCase {
+        prog,
+        pre,
+        threads,
+        mode: Mode::Readers,
+        post_all: true,
+        fault_at: None,
+    }
+}
+
 fn gen_cyclic_case(base: &str, rng: &mut Rng, prop: &str) -> ConcCase {
+    // value-controlled callee sets of the second kind can run into known finding F18 (iteration
+    // limit panic): an unwind, which shuttle cannot model (DESIGN.md section 6), so they are
+    // generated for the OS-thread engine only
+    let nz_ok = !cfg!(feature = "shuttle");
+    if base == "C12" && rng.chance(1, 4) {
+        return gen_nested_conditional_case(rng);
+    }
     let base = if base == "C12" && rng.chance(1, 3) { "C13" } else { base };
     let mut cfg = cyc_cfg(base, rng);
     cfg.max_nodes = 5;
-    PEEK_NZ.store(base == "C12" || peek_nz_env(), std::sync::atomic::Ordering::Relaxed);
+    PEEK_NZ.store((nz_ok && base == "C12") || peek_nz_env(), std::sync::atomic::Ordering::Relaxed);
     let prog = gen_prog(rng, &cfg);
     PEEK_NZ.store(peek_nz_env(), std::sync::atomic::Ordering::Relaxed);
     // programs with a value-controlled callee set of the second kind start from a fresh database
